@@ -231,8 +231,9 @@ class Stream:
                               f"{','.join(f'{a}.{b}' for a, b in sorted(self.user)) or '-'} {oc} {s} {f} {int(bool(w))} {system} {hdr.hex()}")
             self.cases.append(case)
             self.answers.append("ok " + ";".join(canon(fr) for fr in mine))
-        # ---- oracle (the property text; only while established, for a primary nobody is waiting for)
-        if oracle and comm == "COMMUNICATING" and selected and system not in waiting:
+        # ---- oracle (the property text; only while established; an even function carrying the system bytes of an open
+        #      transaction of ours is the reply to our primary, not a primary — an odd function is always a primary)
+        if oracle and comm == "COMMUNICATING" and selected and not (f % 2 == 0 and system in waiting):
             self.judge(case, s, f, w, system, hdr, has_cb, outcome, inside, mine, foreign)
         return mine
 
@@ -359,8 +360,9 @@ def drive(role, res, rng, flags, tier, search, replay_cases=None):
                 body = CAT_CLS[(2, 41)](val).encode()
                 for w in (1, 0):
                     st.send(2, 41, w, body, "s2f41-" + val["RCMD"])
-        # 5. system bytes of an open transaction: the message is the reply to our primary, not a primary
-        for k in range(3):
+        # 5. system bytes of an open transaction: an even function is the reply to our primary (consumed by the waiter),
+        #    an odd function is a primary of the peer and is answered like any other
+        for k in range(5):
             t = threading.Thread(target=lambda: st.h.send_and_waitfor_response(CAT_CLS[(1, 1)]()), daemon=True)
             mark = len(st.rig.log)
             t.start()
@@ -373,7 +375,7 @@ def drive(role, res, rng, flags, tier, search, replay_cases=None):
                 time.sleep(0.001)
             if sysb is None:
                 raise Stuck("own S1F1 not written")
-            st.send(*[(1, 2), (1, 3), (99, 1)][k], 1 if k else 0, b"", "awaited", system=sysb)
+            st.send(*[(1, 2), (1, 3), (99, 1), (1, 0), (1, 1)][k], [0, 1, 1, 0, 1][k], b"", "awaited", system=sysb)
             t.join(gemrig.WAIT)
         # 6. a long mixed random sequence
         pool = CATALOGUE + uncatalogued_pairs(rng, "quick", False)[:40]
